@@ -280,6 +280,7 @@ void Kernel::run() {
       if (rl.empty()) {
         int64_t d = next_deadline();
         if (d < 0) break;  // nothing can ever happen again
+        if (d > clock) { for (Observer *o : observers) o->on_idle(clock, d); if (stop) break; idle_total += d - clock; }
         advance_clock_to(std::max(d, clock));
         if (d <= clock) {
           // make sure progress: a deadline in the past with nobody runnable means an alarm fired for a blocked uninterruptible task etc.
